@@ -1,7 +1,7 @@
 """debug helper: python checks/debug.py <replay.json|case-json> [--net] [--fs]"""
 import json, sys, os, logging
 sys.path.insert(0, os.path.dirname(os.path.dirname(os.path.abspath(__file__))))
-sys.path.insert(0, "/repo/src")
+sys.path.insert(0, os.environ.get("AIOFTP_SRC", "/repo/src"))
 import importlib
 
 def main():
